@@ -787,6 +787,15 @@ Lemma T_C06_extend_conserves c items hint s u s' :
   dvs s' ++ map ev (elems (s_rt s')) ≡ₚ vals_of items ++ dvs s ++ map ev (elems (s_rt s)).
 Proof. apply map_extend_conserves. Qed.
 
+(* clone_from: everything the destination held - in either of its tables - is dropped exactly
+   once (the ledger grows by a permutation of its previous elements), and nothing else is *)
+Lemma T_C06_clone_from c src s u s' :
+  lite s -> hbc (main src) -> rt_clone_from c src s = Ok u s' ->
+  dks s' ≡ₚ map ekid (elems (s_rt s)) ++ dks s /\ dvs s' ≡ₚ map ev (elems (s_rt s)) ++ dvs s.
+Proof.
+  intros Hl Hs E. pose proof (rt_clone_from_ledger c src s Hl Hs) as H. unfold wpp in H. rewrite E in H. exact H.
+Qed.
+
 (* the hypothesis [lite] holds in every reachable state: it is part of the invariant *)
 Lemma T_C06_lite_reachable R Esz s : Inv R Esz (s_rt s) -> lite s.
 Proof. apply Inv_lite. Qed.
